@@ -42,6 +42,9 @@ pub enum DictSpec {
     Repo,
     /// trained with libzstd's ZDICT from seeded samples
     Trained { seed: u64, size: usize },
+    /// a trained dictionary whose three stored repeat offsets are replaced (trainers always store 1, 4, 8, which
+    /// equal the format's defaults and would hide a decoder that ignores them) and whose id is changed
+    TrainedRep { seed: u64, size: usize, rep: [u32; 3] },
 }
 
 pub struct DictData {
@@ -107,6 +110,19 @@ pub fn load_dict(spec: &DictSpec) -> Result<Arc<DictData>, HarnessError> {
                 }
             }
             DictData { raw, id, material }
+        }
+        DictSpec::TrainedRep { seed, size, rep } => {
+            let base = load_dict(&DictSpec::Trained { seed: *seed, size: *size })?;
+            let parsed = ruzstd::decoding::Dictionary::decode_dict(&base.raw).map_err(|e| HarnessError(format!("trained dictionary does not parse: {e:?}")))?;
+            let n = parsed.dict_content.len();
+            let mut raw = base.raw.clone();
+            let at = raw.len() - n - 12;
+            for (i, v) in rep.iter().enumerate() {
+                raw[at + 4 * i..at + 4 * i + 4].copy_from_slice(&v.to_le_bytes());
+            }
+            let id = base.id.wrapping_add(1000 + rep[0]);
+            raw[4..8].copy_from_slice(&id.to_le_bytes());
+            DictData { raw, id, material: base.material.clone() }
         }
         DictSpec::Trained { seed, size } => {
             let samples = dict_material(*seed);
